@@ -122,6 +122,15 @@ CLAIMS = {
         design="6/C18"),
 }
 
+CLAIMS["C20"] = dict(
+    text="Theorems on the model of the input checks and of the coercion: accepted data have unique p_ids, valid non-self pointers, "
+         "group-constant group-level inputs and no duplicate column names (each fault class => rejection); a successful conversion never "
+         "changes a numeric value (for all values), with a proved refutation of unchecked int->float beyond 2^53. Tie: U9 compares "
+         "convert_cell / accept with the real converter / checks; fault injection of every fault class (and pairs) through the public "
+         "API at random rows must raise; dtype variants must leave all results unchanged and warn.",
+    technique="Coq proof (Validation.v) + differential correspondence U9 + fault injection through the public API",
+    design="6/C20")
+
 ALL = [f"C{i:02d}" for i in range(1, 21)]
 PLANNED = "machinery for this property is not built yet in this commit (planned, DESIGN.md section 11); not claimed"
 
